@@ -56,8 +56,8 @@ NS7 = [n for k in range(1, 8) for n in (k, -k)]
 COMPOUND = ['1m1d', '-1m-1d', '1w-1d', '1d12h', '-1d-12h', '2b1d']
 ALT = ['+1d', '2D', '+3b', '-2B', '-1W', '+1w-1D', '+1m', '-1M', '1M1D']          # other spellings of bumps of the alphabet
 ALT_LONG = ['+1m', '-1M', '1M1D', '+1Y', '-2Q']
-TODS_DAY = [[0, 0, 0, 0], [9, 30, 0, 0]]
-TODS_INTRADAY = [[0, 0, 0, 0], [22, 30, 0, 0]]
+TODS_DAY = [[0, 0, 0, 0], [9, 30, 0, 0], [9, 30, 0, 5]]            # the last one carries microseconds (rrule drops them)
+TODS_INTRADAY = [[0, 0, 0, 0], [22, 30, 0, 0], [22, 30, 0, 7]]
 CAP = 40
 GUARD_S = 2.0
 CAL_EVERY = 4            # Calendar.drange is compared on every 4th end point
